@@ -32,6 +32,7 @@ var Properties = map[string]PropDef{
 			{Name: "types.ZZC08Oracle", Quick: map[string]int{"K": 0, "D": 1}, Thorough: map[string]int{"K": 1, "D": 2}, Depth: 200},
 			{Name: "types.ZZC08Laws", Quick: map[string]int{"K": 2, "D": 0}, Thorough: map[string]int{"K": 2, "D": 1}, Depth: 200},
 			{Name: "types.ZZC08Cost", Quick: map[string]int{"N": 4}, Thorough: map[string]int{"N": 6}, Depth: 300, Note: "calls of innerEqualType on two equal cycles of N two-branch choices; natively the family is scaled to 64 definitions with a 3 s deadline"},
+			{Name: "types.ZZC08Phases", Depth: 200, Note: "A = C^p(A), B = C^q(B) against each other at offsets i, j (out-of-phase recursion)"},
 			{Name: "types.ZZC08Nesting", Quick: map[string]int{"MENU": 1}, Depth: 200, Note: "one name compared with a left- and a right-nested binary type inside one call (memo keys must keep them apart)"},
 			{Name: "types.ZZC08Oracle", Quick: map[string]int{"K": 2, "D": 1, "DS": 1, "DT": 3, "MENU": 1}, Depth: 200, ThoroughOnly: true, Note: "left/right nested products against names: the printed memo key must keep them apart"},
 		},
@@ -64,6 +65,7 @@ var Properties = map[string]PropDef{
 		Harnesses: []HarnessDef{
 			{Name: "types.ZZC16Infer", Quick: map[string]int{"K": 1, "D": 2}},
 			{Name: "types.ZZC16Infer", Quick: map[string]int{"K": 3, "D": 1, "LEAN": 2}},
+			{Name: "types.ZZC16Cycles", Note: "ping/pong/user/leaf: mutual recursion with the mode fixed in one place, all 24 declaration orders"},
 			{Name: "types.ZZC16Infer", Quick: map[string]int{"K": 2, "D": 1}, ThoroughOnly: true},
 			{Name: "types.ZZC16Infer", Quick: map[string]int{"K": 3, "D": 1, "LEAN": 3, "FIXNAMES": 1}, ThoroughOnly: true},
 		},
@@ -140,7 +142,7 @@ var Properties = map[string]PropDef{
 			"natively (replay) the same harness builds os.Args, a fresh flag set and real program files (syntax error / type error / a program printing a label) and observes exit vs return and the printed label",
 		},
 		Outside:   "the flag package's own parsing of spellings, panics inside the real stages (C09, C11), benchmark and web-server modes, the exact text of diagnostics",
-		Harnesses: []HarnessDef{{Name: "cmd.ZZC18Cli"}},
+		Harnesses: []HarnessDef{{Name: "cmd.ZZC18Cli", Optional: []string{"C18.noexecute-anywhere-never-runs", "C18.runs-only-checked-programs"}}},
 	},
 	"C15": {
 		ID: "C15", AssertPrefix: "C15.",
@@ -282,6 +284,7 @@ func c09Harnesses() []HarnessDef {
 	}
 	hs = append(hs, HarnessDef{Name: "process.ZZC09Worker"})
 	hs = append(hs, HarnessDef{Name: "zzpub.ZZMenuVerdicts", Depth: 400, Loop: 3000})
+	hs = append(hs, HarnessDef{Name: "types.ZZC08Phases", Depth: 200})
 	hs = append(hs, HarnessDef{Name: "types.ZZC08Cost", Quick: map[string]int{"N": 4}, Thorough: map[string]int{"N": 6}, Depth: 300})
 	hs = append(hs, HarnessDef{Name: "zzpub.ZZC09Program", Depth: 300, Loop: 2000})
 	hs = append(hs, HarnessDef{Name: "types.ZZC09Accepted", Quick: map[string]int{"K": 2, "D": 1}, Depth: 200})
